@@ -197,7 +197,7 @@ class Check:
             shutil.copytree(src, work)
             shutil.copy(path, os.path.join(work, "trace.ndjson"))
             out = os.path.join(work, "tlc.out")
-            cmd = ["java", "-XX:+UseParallelGC", "-Xss64m", "-Xmx3g", "-cp", JAVA_CP, "tlc2.TLC", "-config", cfg,
+            cmd = ["java", "-XX:+UseParallelGC", "-Xss512m", "-Xmx3g", "-cp", JAVA_CP, "tlc2.TLC", "-config", cfg,
                    "-metadir", os.path.join(work, "meta"), "-workers", "1", module + ".tla"]
             t0 = time.time()
             to = False
